@@ -38,10 +38,10 @@ package fmap
 //@ emits: decls
 //@ o-fork: when nresults(typs[0])=1 nilable result0(typs[0])
 //@ serves: fmap len=2 kind1=Signature typs=typs
-//@ o-sig: when nresults(typs[0])=0 (f func($param0(typs[0])), g func() ($param0(typs[0]), error)) (rerr error)
-//@ o-sig: when nresults(typs[0])=1 (f func($param0(typs[0])) $result0(typs[0]), g func() ($param0(typs[0]), error)) (r0 $result0(typs[0]), rerr error)
-//@ o-sig: when nresults(typs[0])=2 (f func($param0(typs[0])) ($result0(typs[0]), $result1(typs[0])), g func() ($param0(typs[0]), error)) (r0 func() ($result0(typs[0]), $result1(typs[0])), rerr error)
-//@ o-sig: when nresults(typs[0])=3 (f func($param0(typs[0])) ($result0(typs[0]), $result1(typs[0]), $result2(typs[0])), g func() ($param0(typs[0]), error)) (r0 func() ($result0(typs[0]), $result1(typs[0]), $result2(typs[0])), rerr error)
+//@ o-sig: when nresults(typs[0])=0 (f $typs[0], g $typs[1]) (rerr error)
+//@ o-sig: when nresults(typs[0])=1 (f $typs[0], g $typs[1]) (r0 $result0(typs[0]), rerr error)
+//@ o-sig: when nresults(typs[0])=2 (f $typs[0], g $typs[1]) (r0 func() ($result0(typs[0]), $result1(typs[0])), rerr error)
+//@ o-sig: when nresults(typs[0])=3 (f $typs[0], g $typs[1]) (r0 func() ($result0(typs[0]), $result1(typs[0]), $result2(typs[0])), rerr error)
 //@ o-requires: f != nil && g != nil
 //@ o-ensures: [g-first-exactly-once] traceLen() >= 1 && called(0, g)
 //@ o-ensures: [stop-at-error] result(1, g) != nil ==> rerr == result(1, g) && traceLen() == 1
